@@ -505,3 +505,22 @@ Proof.
   - intros Hin. pose proof (fold_max_ge l _ Hin). lia.
   - pose proof (fold_max_nonneg l). lia.
 Qed.
+
+(* the lowest-free choice (the kernel's), from any base: fresh as well, so every theorem about
+   histories holds for the descriptor numbers the driver and the harness really use - 0, 1, 2 after the
+   standard streams were closed, 1023/1024/1025 when everything below is taken *)
+Lemma low_from_fresh fuel : forall k l, 0 <= k -> ~ In (low_from fuel k l) l /\ 0 <= low_from fuel k l.
+Proof.
+  induction fuel as [|f IH]; intros k l Hk; cbn [low_from].
+  - split.
+    + intros Hin. pose proof (fold_max_ge l _ Hin). lia.
+    + lia.
+  - destruct (existsb (Z.eqb k) l) eqn:E.
+    + apply IH. lia.
+    + split; [|exact Hk]. intros Hin.
+      assert (existsb (Z.eqb k) l = true) as H1.
+      { apply existsb_exists. exists k. split; [exact Hin | apply Z.eqb_refl]. }
+      congruence.
+Qed.
+Lemma pick_low_fresh base : fresh_pick (pick_low base).
+Proof. intros l. unfold pick_low. apply low_from_fresh. lia. Qed.
